@@ -59,6 +59,14 @@ def main(chk, pid, tier, seed, replay):
                             rf.write(f"K {e['set']} {e['xi']}\n")
                         else:
                             rf.write(f"S {e['set']} {e['xi']} {e['msg']} {e['rnd']}\n")
+    # crafted verification vectors (forged under t1 = 0, malformed hint encodings that keep the hinted set)
+    exe, _ = chk.build_vcheck("plain")
+    fv = subprocess.run([exe, "featvectors", str(seed)], stdout=subprocess.PIPE, stderr=subprocess.PIPE, text=True, env=env0)
+    if fv.returncode != 0:
+        chk.inconclusive("vcheck featvectors failed")
+    with open(rare_path, "a") as rf:
+        rf.write(fv.stdout)
+    n_rare += fv.stdout.count("\nV ") + (1 if fv.stdout.startswith("V ") else 0)
     # reference digests
     exe, _ = chk.build_vcheck("plain")
     p = subprocess.run([exe, "featref", str(seed), str(cases), rare_path], stdout=subprocess.PIPE, stderr=subprocess.PIPE, text=True, env=env0)
